@@ -354,6 +354,12 @@ func (w *vWorld) parentAsOperand() {
 	var cp, rootCopy ad.Matrix
 	w.guard("deep-copy", func() { cp, rootCopy = w.deepCopy(h), w.deepCopy(root) })
 	w.c.Logf("%s.MdotM(a, root) with a = %dx%d %v [%s]: the receiver is a view of the right operand", h.name, h.rows, w.R, valuesOf(a), h.kinds)
+	// the reference first: if the independent product fails (an element type
+	// or derivative-count matter, not a view matter) the view is left alone
+	if pv, _ := core.Try(func() { cp.MdotM(a, rootCopy) }); pv != nil {
+		w.c.Count("independent-product-panicked:MdotM")
+		return
+	}
 	if pv, _ := core.Try(func() { h.m.MdotM(a, root.m) }); pv != nil {
 		// rejected: nothing may have changed (the regular checks follow)
 		w.c.Count("aliasing-rejected-by-the-library")
@@ -361,11 +367,6 @@ func (w *vWorld) parentAsOperand() {
 	}
 	w.viewOps++
 	w.c.Count("view-op:MdotM-with-the-parent-as-operand")
-	if pv, _ := core.Try(func() { cp.MdotM(a, rootCopy) }); pv != nil {
-		// the independent product fails (an element type problem, not a view problem)
-		w.c.Count("both-panicked:MdotM")
-		return
-	}
 	want := obsMatrix("", cp)
 	for i := 0; i < h.rows; i++ {
 		for j := 0; j < h.cols; j++ {
